@@ -498,7 +498,8 @@ func main() {
 	// ---- (5) wrapped Ethereum transaction: value reaches the executor unchanged ----
 	// eth_tx.ConvertTx writes BigIntToStr(value) into the JSON data; the contract executor's
 	// decodeContractData (hook VerifDecodeContractData) parses it back with StrToBigInt.
-	common.SetBlockHeight(1) // the executor's decoding reads fork gates (process-global height; zero config = all proposals active)
+	common.Init(0, "c18.ini", "dev") // the executor's decoding reads fork gates (process-global height, dev config: all proposals active)
+	common.SetBlockHeight(1)
 	wrapped := func(v *big.Int) {
 		defer func() {
 			if p := recover(); p != nil {
